@@ -56,6 +56,14 @@ FAMILY = [
     ("PVP", "D0{K(1460)bar-[GSpline.EFF]{K*(892)bar0{K-,pi+},pi-},pi+}", "1_2_34", "Dtos1P1_s1toV2P2_V2toP3P4", 0,
      [("K(1460)bar-", "GSpline", 1), ("K*(892)bar0", "RBW", 1)], ["K-", "pi+", "pi-", "pi+"]),
 ]
+# two resonances of the same name; needs an event type with two different repeated species
+RHORHO = ("VV_same", "D0{rho(770)0{pi+,pi-},rho(770)0{pi+,pi-}}", "12_34", "DtoV1V2_V1toP1P2_V2toP3P4", 0,
+          [("rho(770)0", "RBW", 1), ("rho(770)0", "RBW", 1)], ["pi+", "pi-", "pi+", "pi-"])
+PHIRHO = ("VV_KKpipi", "D0[D]{phi(1020)0{K+,K-},rho(770)0{pi+,pi-}}", "12_34", "DtoV1V2_V1toP1P2_V2toP3P4_D", 2,
+          [("phi(1020)0", "RBW", 1), ("rho(770)0", "RBW", 1)], ["K+", "K-", "pi+", "pi-"])
+EXTRA = [RHORHO, PHIRHO]
+EXTRA_EVENTS = {"VV_same": [["pi+", "pi-", "pi+", "pi-"], ["pi+", "pi+", "pi-", "pi-"], ["pi-", "pi+", "pi+", "pi-"], ["pi+", "pi-", "pi-", "pi+"]],
+                "VV_KKpipi": [["K+", "K-", "pi+", "pi-"], ["pi+", "K+", "pi-", "K-"], ["K-", "K+", "pi-", "pi+"], ["pi-", "pi+", "K-", "K+"]]}
 EVENT_TYPES = [["K-", "pi+", "pi+", "pi-"], ["pi+", "K-", "pi+", "pi-"], ["pi-", "pi+", "K-", "pi+"], ["pi+", "pi+", "pi-", "K-"]]
 COUPLINGS = [("2", "1", "0", "2", "0", "0"), ("0", "0.5", "0.1", "0", "1.5", "0.2"), ("0", "-0.3", "0.01", "2", "0.7", "0.0")]
 PARAMS = """a(1)(1260)+::Spline::Min 0.18412
@@ -74,6 +82,8 @@ D0_radius 2 0.0037559 0
 f_scatt0 2 0.23399 0
 f_scatt1 2 0.15044 0
 f_scatt2 0 -0.20545 0.1
+D0_width 0 1.5 0
+rho(770)0_mass 0 775.26 0.0
 IS_p1_pipi 2 0.22889 0
 IS_p1_KK 2 -0.55377 0
 IS_p1_mass 2 0.651 0
